@@ -43,6 +43,15 @@ def gen(rng, tier):
             cases.append(Case("cli.new %s %s" % (hx(str(L)), hx(ent)), tags=("cli", "pattern"), runner="cli", meta={"log": True}))
         # short read: fewer bytes available than requested -> failure
         cases.append(Case("mn.random %d %s" % (L, hx(bytes(nb - 1))), tags=("lib", "short-read")))
+    # every word of the list is printed at least once: 16-byte entropies whose eleven leading 11-bit groups run through all
+    # 2048 indices (187 entropies), judged against the reference BIP-39 list — a single altered entry of the embedded list
+    # shows as a printed word that is not a BIP-39 word
+    for start in range(0, 2048, 11):
+        v = 0
+        for k in range(11):
+            v = (v << 11) | ((start + k) % 2048)
+        ent = ((v << 7) | (start % 128)).to_bytes(16, "big")
+        cases.append(Case("mn.random 12 %s" % hx(ent), tags=("lib", "every-word")))
     # lengths that become a supported one when narrowed to 8 / 16 / 32 / 64 bits: L + k·2^w for every supported L
     for L in SUP:
         for w in (8, 16, 32, 64):
